@@ -13,6 +13,7 @@ import BB.Driver.OpsMacros
 import BB.Driver.OpsRules
 import BB.Driver.OpsTree
 import BB.Driver.OpsPy
+import BB.Driver.OpsPyTape
 
 namespace BB.Driver
 
@@ -150,6 +151,8 @@ def handle (op : String) (args : List String) (text : String) : String :=
     | none => match OpsTree.handle op args text with
     | some r => r
     | none => match OpsPy.handle op args text with
+    | some r => r
+    | none => match OpsPyTape.handle op args text with
     | some r => r
     | none => "BAD-OP"
 
